@@ -69,6 +69,11 @@ ProjMatch ==
                     /\ P.grave[i].pubrels = R'.grave[c].pubrels
             ELSE \A i \in 1..Len(P.grave) : P.grave[i].cid # c
     /\ Len(R'.notifs) = P.notifs
+    /\ \A i \in 1..Len(P.groups) :
+          /\ P.groups[i].key \in DOMAIN R'.groups
+          /\ LET g == R'.groups[P.groups[i].key] IN
+             g.has /\ g.clients = P.groups[i].clients /\ g.turn = P.groups[i].turn /\ g.cursor = P.groups[i].cursor
+    /\ \A k \in DOMAIN R'.groups : R'.groups[k].has => \E i \in 1..Len(P.groups) : P.groups[i].key = k
     /\ Len(chan') = P.chan
     /\ ~R'.panicked
 
